@@ -66,6 +66,9 @@ inductive PT where
   | l   -- forwarded, executed by the leader, the answer is an error
   | x   -- the caller leads when it looks, but has lost the leadership when it makes its Raft call: the call fails
         -- (ErrNotLeader); from then on `lead` leads
+  | p   -- partition: the caller leads but is cut off from everybody right before the call; its Raft call appends the
+        -- entry to its OWN log only, the future fails (leadership lost), the entry is never committed (the others
+        -- elect `lead`, the entry is truncated when the network heals)
   deriving DecidableEq, Repr
 
 /-- which of the other running members list the subject peer after the step -/
@@ -79,6 +82,7 @@ def planOrc (self lead : Nat) (plan : List PT) : Nat → Tick := fun k =>
   | some .f => { leader := some lead, ok := false, lost := false }
   | some .l => { leader := some lead, ok := false, lost := true }
   | some .x => { leader := some self, ok := false, lost := false }
+  | some .p => { leader := some self, ok := false, lost := false }
   | none => { leader := some lead, ok := true, lost := false }
 
 inductive FOp where
@@ -107,10 +111,35 @@ def executedBefore (plan : List PT) (k : Nat) : Bool := (plan.take k).contains .
 def goneOrc (self lead : Nat) (plan : List PT) : Nat → Tick := fun k =>
   if executedBefore plan k then { leader := none, ok := false, lost := false } else planOrc self lead plan k
 
-/-- removing THE LEADER through a lost reply: somebody else leads afterwards; if that is the caller itself the
-    remaining attempts are its own Raft calls -/
-def selfLeadsOrc (self lead : Nat) (plan : List PT) : Nat → Tick := fun k =>
-  if executedBefore plan k then { leader := some self, ok := true, lost := false } else planOrc self lead plan k
+/-- removing THE LEADER through a lost reply: from then on every further attempt of the caller meets one of three
+    situations — it still believes in the deposed leader, whose endpoint can no longer serve the request (`stale`), it
+    reaches the new leader (`fwd`), or it has been elected itself (`self`) -/
+inductive After where
+  | stale | fwd | self
+  deriving DecidableEq, Repr
+
+def afterTick (self lead : Nat) : After → Tick
+  | .stale => { leader := some lead, ok := false, lost := false }
+  | .fwd => { leader := some lead, ok := true, lost := false }
+  | .self => { leader := some self, ok := true, lost := false }
+
+/-- index of the first executed (lost) attempt of a plan -/
+def firstExec (plan : List PT) : Nat := (plan.takeWhile (fun t => t != .l)).length
+
+def afterOrc (self lead : Nat) (plan : List PT) (tail : List After) : Nat → Tick := fun k =>
+  if executedBefore plan k then afterTick self lead (tail.getD (k - firstExec plan - 1) .fwd) else planOrc self lead plan k
+
+/-- what the (at most three) attempts after the removal may meet -/
+def tails : List (List After) :=
+  [After.stale, .fwd, .self].flatMap (fun a => [After.stale, .fwd, .self].flatMap (fun b => [After.stale, .fwd, .self].map (fun c => [a, b, c])))
+
+/-- a partitioned caller: after (or instead of) its own failed Raft call it finds no leader until its patience runs
+    out, or — healed in time — reaches the new leader at once -/
+def xNoneOrc (self : Nat) : Nat → Tick := fun k =>
+  if k == 0 then { leader := some self, ok := false, lost := false } else { leader := none, ok := false, lost := false }
+def noneOrc : Nat → Tick := fun _ => { leader := none, ok := false, lost := false }
+def pExtra (self lead : Nat) (plan : List PT) : List (Nat → Tick) :=
+  if plan.contains .p then [xNoneOrc self, noneOrc, planOrc self lead []] else []
 
 def fCall (retries : Nat) (init : List Nat) (log : List Entry) (att : Attempt) (orc : Nat → Tick) (a j lead : Nat)
     (res : Res) (fwd loc : Nat) (has : Has) : Option (List Entry) :=
@@ -127,11 +156,11 @@ def fCallAny (retries : Nat) (init : List Nat) (log : List Entry) (att : Attempt
 
 /-- the oracles a removal step may have met -/
 def rmOrcs (a j lead : Nat) (plan : List PT) : List (Nat → Tick) :=
-  [planOrc a lead plan] ++ (if a == j then [goneOrc a lead plan] else []) ++ (if j == lead then [selfLeadsOrc a lead plan] else [])
+  [planOrc a lead plan] ++ (if a == j then [goneOrc a lead plan] else []) ++ (if j == lead then tails.map (afterOrc a lead plan) else []) ++ pExtra a lead plan
 
 def fStep (retries : Nat) (init : List Nat) (log : List Entry) : FOp → Option (List Entry)
   | .add a j lead plan res fwd loc has =>
-    fCallAny retries init log (rwAddPeer j) a j lead res fwd loc has [planOrc a lead plan]
+    fCallAny retries init log (rwAddPeer j) a j lead res fwd loc has ([planOrc a lead plan] ++ pExtra a lead plan)
   | .rm a j lead plan res fwd loc has =>
     fCallAny retries init log (rwRemovePeer j) a j lead res fwd loc has (rmOrcs a j lead plan)
   | .pin a p => if init.contains a && cfgHas (cfgAt log) a then some (log ++ [.pin p]) else none
@@ -154,6 +183,40 @@ def fAllowed (k : FCase) : Bool :=
   | some log => fObsOk k.init log k.obs
   | none => false
 
+/-! ### raftWrapper.AddPeer / RemovePeer: what is returned when the Raft future fails
+
+hashicorp/raft keeps two configurations: the COMMITTED one and the LATEST one (the last configuration entry in the
+local log, committed or not). `raftWrapper.Peers` (`raft.GetConfiguration`) reads the latest. A leader that is cut off
+appends the change to its own log — its latest configuration shows it — and the future fails with "leadership lost";
+the entry is truncated when another leader takes over. -/
+inductive Fut where
+  | ok            -- committed
+  | err           -- refused / not leader: nothing was appended
+  | errAppended   -- the future failed AFTER the entry was appended locally: latest shows the change, no quorum accepted it
+  deriving DecidableEq, Repr
+
+/-- what `rw.Peers()` shows on the caller once the future has returned -/
+def latestAfter (c : Config) (e : Entry) : Fut → Config
+  | .ok => applyCfg c e
+  | .err => c
+  | .errAppended => applyCfg c e
+
+/-- `raftWrapper.AddPeer` over the committed configuration `c`, returning what reaches the committed log.
+    `recheck = false` is the code: a future error is returned as an error. `recheck = true` is the refuted alternative
+    (seeded change C17e): on a future error re-read `rw.Peers()` and return nil when it already shows the peer. -/
+def rwAddPeerW (recheck : Bool) (p : Nat) (c : Config) (fut : Fut) : Res × List Entry :=
+  if cfgHas c p then (.ok, [])
+  else if fut == .ok && raftAccepts c (.addVoter p) then (.ok, [.addVoter p])
+  else if recheck && fut != .ok && cfgHas (latestAfter c (.addVoter p) fut) p then (.ok, [])
+  else (.err, [])
+
+def rwRemovePeerW (recheck : Bool) (p : Nat) (c : Config) (fut : Fut) : Res × List Entry :=
+  if !cfgHas c p then (.ok, [])
+  else if (cfgIds c).length == 1 && (cfgIds c).head? == some p then (.err, [])
+  else if fut == .ok && raftAccepts c (.rmServer p) then (.ok, [.rmServer p])
+  else if recheck && fut != .ok && !cfgHas (latestAfter c (.rmServer p) fut) p then (.ok, [])
+  else (.err, [])
+
 /-! ### concurrent phases
 
 A phase = operations issued at the same instant at different members (each a healthy call); the harness waits for
@@ -166,13 +229,15 @@ inductive COp where
   deriving Repr
 
 /-- one operation applied to the log: the logs that explain its outcome at this point of the order (none = impossible).
-    An acknowledged call took effect as a healthy attempt does. A failed call of a running server normally left no
-    trace, but the single log may still hold its entry (the answer was lost to a leadership change: removing the
-    leader while the call is in flight): both are admitted. A caller that is no longer a server may fail. -/
-def cApply (running : List Nat) (log : List Entry) (op : COp) : List (List Entry) :=
+    An acknowledged call took effect as a healthy attempt does. In a phase that removes no running peer (`unstable = false`)
+    a call issued at a server of the configuration has exactly the outcome of a healthy attempt. Otherwise — the
+    leadership may move while the call is in flight, or the caller is no longer a server — a call may also fail, and a
+    failed call may or may not have left its entry in the single log (the answer was lost to the leadership change). -/
+def cApply (running : List Nat) (unstable : Bool) (log : List Entry) (op : COp) : List (List Entry) :=
   let go (a : Nat) (att : Attempt) (res : Res) : List (List Entry) :=
     let r := direct att log
     if !running.contains a then []
+    else if cfgHas (cfgAt log) a && !unstable then (if r.1 == res then [r.2] else [])
     else match res with
       | .ok => if r.1 == .ok then [r.2] else []
       | .err =>
@@ -184,9 +249,20 @@ def cApply (running : List Nat) (log : List Entry) (op : COp) : List (List Entry
   | .pin a p res => go a (rwCommit (.pin p)) res
   | .unpin a c res => go a (rwCommit (.unpin c)) res
 
-def cApplyAll (running : List Nat) (logs : List (List Entry)) : List COp → List (List Entry)
+/-- only the state a log stands for matters from one phase to the next: one representative per (configuration, pinset) -/
+def dedupLogs : List (List Entry) → List (List Entry)
+  | [] => []
+  | l :: rest =>
+    let r := dedupLogs rest
+    if r.any (fun l' => cfgAt l' == cfgAt l && pinsAt l' == pinsAt l) then r else l :: r
+
+def cApplyAll (running : List Nat) (unstable : Bool) (logs : List (List Entry)) : List COp → List (List Entry)
   | [] => logs
-  | op :: rest => cApplyAll running (logs.flatMap (fun log => cApply running log op)) rest
+  | op :: rest => cApplyAll running unstable (dedupLogs (logs.flatMap (fun log => cApply running unstable log op))) rest
+
+/-- the phase removes a running peer (possibly the leader): leadership may move while its calls are in flight -/
+def removesRunning (running : List Nat) (ph : List COp) : Bool :=
+  ph.any (fun o => match o with | .rm _ j _ => running.contains j | _ => false)
 
 /-- all ways of picking the operations of a phase one after the other -/
 def perms {α : Type} : List α → List (List α)
@@ -203,7 +279,7 @@ structure CCase where
 def cLogs (running : List Nat) : List (List Entry) → List (List COp) → List (List Entry)
   | logs, [] => logs
   | logs, ph :: rest =>
-    cLogs running ((perms ph).flatMap (fun order => cApplyAll running logs order)) rest
+    cLogs running (dedupLogs ((perms ph).flatMap (fun order => cApplyAll running (removesRunning running ph) logs order))) rest
 
 def cAllowed (k : CCase) : Bool :=
   (cLogs (normPeers k.init) [[.boot k.init]] k.phases).any (fun log => fObsOk k.init log k.obs)
